@@ -261,6 +261,11 @@ fn run_random(ctx: &mut Ctx, rng: &mut Rng, _index: u64) {
 }
 
 fn run_large(ctx: &mut Ctx, rng: &mut Rng, _index: u64) {
+    if crate::framework::small_mode() {
+        // too slow under an interpreter: covered by the native run
+        ctx.gray();
+        return;
+    }
     let big = *rng.pick(&[65_536usize, 65_537, 100_000, 131_073]);
     let sizes = vec![rng.range(1, 50), big, rng.range(1, 50)];
     let len: usize = sizes.iter().sum();
